@@ -83,7 +83,7 @@ CLAIMED = {
         "Two genuine defects found this way were repaired in /repo (array bounds outside 1..=65535 hit unwrap_unchecked in release; unbounded u8 counters).",
    note=TB + " Termination of the model's fuelled recursions on accepted inputs is not proved; undefined behaviour cannot be observed reliably, only its symptoms (divergent exit status or bytes)."),
  "C17": dict(engine="lean+tables+cli+compiled probes", technique="Lean 4 proof (literal semantics per language) + kernel-checked regenerated table of the real range check + compiled value/type probes",
-   text="Lean 4: the model of Primitive::new agrees with the real range check on the whole regenerated boundary table (297 rows: each type x {min-1,min,min+1,-1,0,1,max-1,max,max+1} x {decimal, hex, negative hex, leading zeros, fractional}, floats around the overflow thresholds) and equals the mathematical in-range predicate there; "
+   text="Lean 4: the model of Primitive::new agrees with the real range check on the whole regenerated boundary table (297 rows: each type x {min-1,min,min+1,-1,0,1,max-1,max,max+1} x {decimal, hex, negative hex, leading zeros, fractional}, floats around the overflow thresholds) and equals the mathematical in-range predicate there; accepts_iff_in_range: for EVERY integer literal of the grammar (-?0xH+ | -?D+, any length) and every integer type the model's range check accepts exactly when the mathematical value lies in the type's range (and an unsigned type sees no minus sign); "
         "every backend reading the verbatim literal evaluates it to its mathematical value when it has no leading zero (Rust: always); refuted for leading zeros (octal in C/C++/Java). "
         "Tie: exit status of the real binary for boundary literals at file and interface scope with and without --allow-undefined-behavior; every emitted constant declaration is compiled alone with gcc, g++, rustc and javac in a probe printing its value and type. Six classes of genuine defects are known findings.",
    note=TB + " C/C++ literal typing rules, rustc and javac are the reference semantics (observed, not modelled beyond the radix rule)."),
